@@ -272,3 +272,35 @@ PROPS["C11"]["units"].append(U("c11_ampequiv", "inpkg", "broker", "^TestVerifC11
 PROPS["C11"]["rule"] += (" c11_ampequiv: generated polls (valid with any NAT/fingerprint/offer, one mutation from valid, random bytes, "
                          "undecodable paths) sent through GET /amp/client/<EncodePath(poll)> and through POST /client in equal broker "
                          "states (no proxy / answering proxy / silent proxy): the de-armored AMP body must equal the POST body.")
+
+PROPS["C19"] = {
+    "rule": ("c19_bincount: every count 0..2^18 (quick) / 2^22 (thorough) and random counts to 2^40; non-trivial = not a multiple "
+             "of 8. c19_counters: 1-40 events (proxy polls with/without/rejected relay pattern by (nat,type), from repeating "
+             "remote addresses; client polls of each NAT type) issued sequentially or in concurrent bursts on a fake clock, then "
+             "the periodic printer is called in-package, counters reset, 0-12 more events, printer again. Truth is counted by the "
+             "harness from the responses it observed (idle = 'no match', matched = offer handed, denied = 'no proxies' by sent "
+             "NAT, match = answer handed). Oracle: every rounded Prometheus counter and every *-count log line = ceil8(truth) for "
+             "its label set, snowflake-ips-<type> = distinct addresses per type, total = sum incl. unknown; second period counts "
+             "from zero. Non-trivial = >= 2 label sets and an event count that is not a multiple of 8. c19_journal: 1-60 address recordings (universe of 41 addresses with repetitions, occasional bulk of 200/3000 distinct "
+             "ones) through ClusterWriter on a fake clock with gaps of 0 / exactly the interval / interval+1ns / 3 intervals / ms, "
+             "then 1-6 query windows whose edges sit before / at / after chunk boundaries. Oracle: reference chunking model; chunks "
+             "included = chunks inside the window; estimate within max(2, 3%) of the distinct addresses in those chunks; no address "
+             "in clear in the journal; different masking keys give different sketches. Non-trivial = a window that cuts the journal "
+             "and >= 3 recordings."),
+    "assumptions": ["unique-address figures count addresses of polls that were not rejected for their relay pattern (the code's reading of 'has polled')"],
+    "units": [
+        U("c19_bincount", "inpkg", "broker", "^TestVerifC19BinCount$", (2000, 20000), shards=(4, 8)),
+        U("c19_counters", "inpkg", "broker", "^TestVerifC19Counters$", (200, 3000), timeout=(300, 3000), wedge_is_violation=True),
+        U("c19_journal", "ext", "c19", "^TestVerifC19Journal$", (400, 6000), timeout=(300, 3000)),
+    ],
+}
+META["C19"] = {
+    "level": "Exhaustive enumeration of the binning helper over the reachable range; sampled exploration of event multisets through the real call sites with harness-side truth; model-based check of the distinct-IP journal on a fake clock with a tolerance that a correct sketch cannot exceed.",
+    "note": "Truth is derived from observed responses following doc/broker-spec.txt, not from the broker's internal branches.",
+    "technique": "exhaustive enumeration + property-based testing (rapid) with reference counting model on a fake clock",
+}
+PROPS["C06"]["units"].append(U("c06_broker_reject", "inpkg", "broker", "^TestVerifC06BrokerReject$", (400, 5000), timeout=(300, 3000), wedge_is_violation=True))
+PROPS["C06"]["rule"] += (" c06_broker_reject: generated (allowed, presumed, proxy pattern present/empty/absent, door) followed by a compatible "
+                         "waiting client: if a constructed hostname is accepted by the allowed pattern and refused by the proxy's effective "
+                         "pattern the poll must be answered 'incorrect relay pattern' immediately, must not appear in /debug and the client "
+                         "must be told 'no proxies'; an accepted poll must cover all sampled members and be matched.")
